@@ -1,19 +1,22 @@
 (* Model of fickling/loader.py (the checked loader, C02) and of the three ways it is armed.
 
      def load(file, max_acceptable_severity=Severity.LIKELY_SAFE, ...):
-         pickled_data = Pickled.load(file)                                   (1) parse
-         result = check_safety(pickled=pickled_data, ...)                    (2) analyse
-         if result.severity <= max_acceptable_severity:                      (3) threshold
-             return pickle.loads(pickled_data.dumps(), *args, **kwargs)      (4) load the PARSED bytes
+         data = Pickled.load(file).dumps()                                   (1) read the first pickle ONCE
+         pickled_data = Pickled.load(data)                                   (2) re-parse those immutable bytes
+         result = check_safety(pickled=pickled_data, ...)                    (3) analyse
+         if result.severity <= max_acceptable_severity:                      (4) threshold
+             return pickle.loads(data, *args, **kwargs)                      (5) load the SAME bytes
          else:
-             raise UnsafeFileError(file, result.to_dict())                   (5) refuse
+             raise UnsafeFileError(file, result.to_dict())                   (6) refuse
 
-   The caller's stream is an ORACLE: [s_at s t] is what the stream holds at time t, and it may hold
-   something else at every t.  Time is counted in phases of the call: T_PARSE (everything
-   Pickled.load reads -- model: Codec.load_model, C06), T_CHECK (while check_safety runs), T_LOAD
-   (when the real unpickler runs).  A stream that is swapped after the first pass is
-   [s_at s T_PARSE <> s_at s T_LOAD].  (A stream that returns different bytes for the same region
-   WITHIN Pickled.load is outside this model and outside the quantifier of C02: DESIGN section 4.)
+   (the tree repaired by "fix: checked load analyses a re-parse of the exact bytes it is going to
+   unpickle"; the earlier loader analysed the opcodes of step (1) directly: [load_prefix_core].)
+
+   [load_core] takes the result of step (1) as an ARBITRARY value p1 : lres (list opc) -- whatever
+   Pickled.load(file) returned or raised on whatever stream, including a stream that answers every
+   read differently; nothing is assumed about it.  [load s thr] is the composition with a well-behaved
+   stream: an ORACLE whose content [s_at s t] may differ at every phase t of the call (T_PARSE =
+   everything the first Pickled.load reads -- model: Codec.load_model, C06; T_CHECK; T_LOAD).
 
    The stock unpickler [unpickle] is the ONLY function that produces Resolve / Call events; it is a
    Section variable, so every theorem holds for any unpickler whatsoever (in the correspondence it
@@ -111,24 +114,67 @@ Definition finish (u : ures V * list event) (bs : list byte) (reads : list nat) 
   mkRun (match fst u with UVal v => Return v | URaise w => Raise (XUnpickle w) end)
         (snd u) (Some bs) reads.
 
+(* Pickled.load(data) on an immutable bytes object *)
+Definition parse_bytes (data : list byte) : lres loaded := load_model KBytes data 0.
+
+(* loader.load after `Pickled.load(file)` has returned / raised p1 (ANY p1) *)
+Definition load_core (p1 : lres (list opc)) (rd : list nat) (thr : sev) : lrun V :=
+  match p1 with
+  | LErr e => refuse (XParse e) rd                                (* Pickled.load(file) raised *)
+  | LOk ops1 =>
+      match dumps ops1 with                                       (* data = <that>.dumps() *)
+      | Err e => refuse (XDumps e) rd
+      | Ok data =>
+          match parse_bytes data with                             (* pickled_data = Pickled.load(data) *)
+          | LErr e => refuse (XParse e) rd
+          | LOk p2 =>
+              match decode (l_ops p2) with                        (*   (argument content errors) *)
+              | None => refuse (XParse LDecode) rd
+              | Some (prog, protos) =>
+                  match check prog protos with                    (* result = check_safety(...) *)
+                  | CErr a => refuse (XAnalysis a) rd
+                  | COk fs =>
+                      if sev_le (verdict fs) thr                  (* result.severity <= max_acc... *)
+                      then finish (unpickle data) data rd         (* pickle.loads(data) *)
+                      else refuse (XUnsafe (to_dict fs)) rd       (* raise UnsafeFileError(file, to_dict()) *)
+                  end
+              end
+          end
+      end
+  end.
+
+(* Pickled.load(file) on a stream that is stable while it is being parsed *)
+Definition first_parse (s : stream) : lres (list opc) :=
+  match load_model (s_kind s) (s_at s T_PARSE) (s_off s) with
+  | LOk p => LOk (l_ops p)
+  | LErr e => LErr e
+  end.
+
 (* fickling.load(file, max_acceptable_severity=thr) *)
 Definition load (s : stream) (thr : sev) : lrun V :=
-  let rd := parse_reads (s_kind s) in
-  match load_model (s_kind s) (s_at s T_PARSE) (s_off s) with     (* pickled_data = Pickled.load(file) *)
+  load_core (first_parse s) (parse_reads (s_kind s)) thr.
+
+(* The loader BEFORE the repair: the opcodes of the first parse are analysed directly.  Their decoded
+   arguments [args1] come from the tokeniser's own reads, their [o_data] from fickling's re-reads of the
+   same regions, so on a stream that answers the two reads differently they are unrelated: args1 is a
+   separate, arbitrary input.  Kept only as the witness of the defect (C02_prefix_loader_refuted). *)
+Definition load_prefix_core (p1 : lres (list opc)) (args1 : option (list op * list (nat * Z)))
+           (rd : list nat) (thr : sev) : lrun V :=
+  match p1 with
   | LErr e => refuse (XParse e) rd
-  | LOk p =>
-      match decode (l_ops p) with                                 (*   (argument content errors) *)
+  | LOk ops1 =>
+      match args1 with
       | None => refuse (XParse LDecode) rd
       | Some (prog, protos) =>
-          match check prog protos with                            (* result = check_safety(...) *)
+          match check prog protos with
           | CErr a => refuse (XAnalysis a) rd
           | COk fs =>
-              if sev_le (verdict fs) thr                          (* result.severity <= max_acc... *)
-              then match dumps (l_ops p) with                     (* pickle.loads(pickled_data.dumps()) *)
+              if sev_le (verdict fs) thr
+              then match dumps ops1 with
                    | Err e => refuse (XDumps e) rd
                    | Ok bs => finish (unpickle bs) bs rd
                    end
-              else refuse (XUnsafe (to_dict fs)) rd               (* raise UnsafeFileError(file, to_dict()) *)
+              else refuse (XUnsafe (to_dict fs)) rd
           end
       end
   end.
@@ -166,24 +212,37 @@ Definition arm_ops (a : arming) : list hop :=
   | AContext _ => [HEnter]
   end.
 
-(* pickle.load(file) in hook state hs; None = a binding outside C02 (the ML environment: C07/C12) *)
-Definition pickle_load (hs : hstate) (s : stream) : option (lrun V) :=
+(* pickle.load(file) in hook state hs, given what the checked loader / the stock unpickler would do with
+   that file; None = a binding outside C02 (the ML environment: C07/C12) *)
+Definition pickle_load_with (checked : sev -> lrun V) (stock : lrun V) (hs : hstate) : option (lrun V) :=
   match pl hs with
-  | Orig => Some (stock_load s)
+  | Orig => Some stock
   | Checked =>                         (* loader.load(file): every other parameter at its default *)
       match pls hs with                (* ... which re-enters through the current pickle.loads *)
-      | Orig => Some (load s LIKELY_SAFE)
+      | Orig => Some (checked LIKELY_SAFE)
       | _ => None
       end
   | ML _ => None
   end.
 
 (* a checked load after an arbitrary earlier hook history h *)
-Definition armed_load (h : list hop) (a : arming) (s : stream) : option (lrun V) :=
+Definition armed_with (checked : sev -> lrun V) (stock : lrun V) (h : list hop) (a : arming)
+  : option (lrun V) :=
   match a with
-  | ADirect thr => Some (load s thr)
-  | _ => pickle_load (hrun (hrun h_init h) (arm_ops a)) s
+  | ADirect thr => Some (checked thr)
+  | _ => pickle_load_with checked stock (hrun (hrun h_init h) (arm_ops a))
   end.
+
+Definition pickle_load (hs : hstate) (s : stream) : option (lrun V) :=
+  pickle_load_with (load s) (stock_load s) hs.
+
+Definition armed_load (h : list hop) (a : arming) (s : stream) : option (lrun V) :=
+  armed_with (load s) (stock_load s) h a.
+
+(* ... on ANY stream: p1 = what Pickled.load(file) gave, stock = what the stock unpickler would do *)
+Definition armed_core (h : list hop) (a : arming) (p1 : lres (list opc)) (rd : list nat) (stock : lrun V)
+  : option (lrun V) :=
+  armed_with (load_core p1 rd) stock h a.
 
 End Loader.
 
